@@ -1,12 +1,23 @@
-(* C11 - Normalize output lines up with Match positions.  PARTIAL: the model of
-   Normalize (V2/Normalize.v) is tied to the code byte for byte and the
-   property is decided by the oracle; the line-accounting facts Normalize
-   relies on are proved (TokInv.v).  The unrestricted statement is false for
-   the faithful model (see known_findings.json: four classes). *)
+(* C11 - Normalize output lines up with Match positions.
+   Main theorem C11_restricted (proof in V2/NormProof.v): for every table set
+   satisfying [tables_ok] and every rune string whose raw-mode run passes the
+   two boolean side conditions, tokenizing Normalize's output in normalising
+   mode gives exactly the tokens Match sees for the original - the same words
+   on the same lines - and no spurious Copyright match.  The side conditions
+   are the negations of the recorded exception classes (known_findings.json):
+   [canon_resid] = no line that is an ignorable notice only after cleaning, no
+   cleaned word containing "https", no number token ending in "-" at a written
+   line break; [flushes_ok] = every flushed word buffer is stable under
+   html.UnescapeString / https rewriting in the sense of [word_flush_ok].
+   Each has a refutation Example in NormProof.v showing the conclusion fails
+   without it.  The model of Normalize (V2/Normalize.v) and of the tokenizer
+   (V2/Tok.v) are tied to the code byte for byte by the correspondence streams;
+   [tables_ok] is proved for the concrete tables T0/T1, the dumped Unicode
+   tables are covered by the oracle. *)
 From Coq Require Import List NArith Bool.
 Import ListNotations.
 From LC.Base Require Import Utf8.
-From LC.V2 Require Import Tok TokInv Normalize.
+From LC.V2 Require Import Tok TokInv Normalize NormProof.
 
 (* in non-normalising mode every word is either the end-of-line token or
    space free, so splitting the normalised text at blanks recovers the words *)
@@ -34,3 +45,43 @@ Example C11_refuted_witness :
   d_matches (tokenize_runes T false [99;111;112;121;114;105;103;104;116;58;32;50;48;50;48;44;32;102;111;111;10]%N) = []
   /\ d_matches (tokenize_runes T true [99;111;112;121;114;105;103;104;116;32;50;48;50;48;32;102;111;111;10]%N) = [1%N].
 Proof. vm_compute. split; reflexivity. Qed.
+
+
+(* THE PROPERTY, restricted to inputs outside the recorded exception classes *)
+Theorem C11_restricted : forall (T : tables), NormProof.tables_ok T -> forall rs : list rune,
+  NormProof.flushes_ok T init_state rs = true ->
+  NormProof.canon_resid T 1 [] (d_toks (tokenize_runes T false rs)) = true ->
+  d_toks (tokenize_runes T true (normalize_out (d_toks (tokenize_runes T false rs)))) =
+  d_toks (tokenize_runes T true rs) /\
+  d_matches (tokenize_runes T true (normalize_out (d_toks (tokenize_runes T false rs)))) = [].
+Proof. exact (@NormProof.C11_restricted). Qed.
+Print Assumptions C11_restricted.
+
+(* Part A: what re-tokenizing the written text gives, for any well-formed raw token list *)
+Theorem C11_retokenize_normalized : forall (T : tables), NormProof.tables_ok T -> forall toks : list (word * N),
+  NormProof.canon T toks = true ->
+  d_toks (tokenize_runes T true (normalize_out toks)) = map (NormProof.normtok T) (filter NormProof.non_eol toks) /\
+  d_matches (tokenize_runes T true (normalize_out toks)) = [].
+Proof. exact (@NormProof.retokenize_normalized). Qed.
+Print Assumptions C11_retokenize_normalized.
+
+(* Part B: the two tokenizer modes run in lockstep on the same input (hyphen deferral included) *)
+Theorem C11_raw_vs_norm : forall (T : tables), NormProof.tables_ok T -> forall rs : list rune,
+  NormProof.flushes_ok T init_state rs = true ->
+  d_toks (tokenize_runes T true rs) =
+  map (NormProof.normtok T) (filter NormProof.non_eol (d_toks (tokenize_runes T false rs))) /\
+  d_matches (tokenize_runes T true rs) = d_matches (tokenize_runes T false rs).
+Proof. exact (@NormProof.raw_vs_norm). Qed.
+Print Assumptions C11_raw_vs_norm.
+
+(* the raw token stream always has the structure Part A needs *)
+Theorem C11_raw_tokens_well_formed : forall (T : tables), NormProof.tables_ok T -> forall rs : list rune,
+  Forall (NormProof.tok_good T) (d_toks (tokenize_runes T false rs)).
+Proof. exact (@NormProof.raw_tok_good). Qed.
+Print Assumptions C11_raw_tokens_well_formed.
+
+(* non-vacuity: a three-line input with a notice line, upper case, "Licence", "2.0" and a hyphenated line break *)
+Example C11_example_hypotheses : ltac:(let t := type of NormProof.ex_ok_hyps in exact t).
+Proof. exact NormProof.ex_ok_hyps. Qed.
+Example C11_example_conclusion : ltac:(let t := type of NormProof.ex_ok_concl in exact t).
+Proof. exact NormProof.ex_ok_concl. Qed.
